@@ -15,6 +15,7 @@ import Hx.Spec.Grammar
 import Hx.Parse.Lines
 import Hx.Lemmas.StartGrammar
 import Hx.Lemmas.BlockGrammar
+import Hx.Lemmas.WholeMessage
 namespace Hx
 
 theorem c07_line_iff (multi : Bool) (buf : List Byte) (v code : Nat) (r : Str) (c : Cur) :
@@ -45,6 +46,26 @@ theorem c07_line_unique (multi : Bool) {pre sp₁ tail rest pre' sp₁' tail' re
     (e : statusLineBytes pre v sp₁ d₁ d₂ d₃ tail ++ rest = statusLineBytes pre' v' sp₁' d₁' d₂' d₃' tail' ++ rest') :
     pre = pre' ∧ v = v' ∧ sp₁ = sp₁' ∧ d₁ = d₁' ∧ d₂ = d₂' ∧ d₃ = d₃' ∧ tail = tail' ∧ ro = ro' ∧ reason = reason' ∧ rest = rest' :=
   statusLine_unique multi h h' e
+
+/-- a response is accepted ⇔ status line ⧺ a header block of the block grammar -/
+theorem c07_accept_iff (be : Backend) (hbe : be.Exact) (cfg : Config) (cap : Nat) (buf : List Byte)
+    (v₀ : RespVal) (n : Nat) :
+    (respCore be cfg cap buf v₀).status = .ok n ↔
+      ∃ pre v sp₁ d₁ d₂ d₃ tail ro reason hb k hs, IsStatusLine cfg.multiResp pre v sp₁ d₁ d₂ d₃ tail ro reason ∧
+        buf = statusLineBytes pre v sp₁ d₁ d₂ d₃ tail ++ hb ∧
+        BlockSpec cfg.respH cap (statusLineBytes pre v sp₁ d₁ d₂ d₃ tail).length 0 hb k hs ∧
+        n = (statusLineBytes pre v sp₁ d₁ d₂ d₃ tail).length + k :=
+  respCore_ok_iff be hbe cfg cap buf v₀ n
+
+theorem c07_accept_fields (be : Backend) (hbe : be.Exact) (cfg : Config) (cap : Nat) (buf : List Byte)
+    (v₀ : RespVal) {pre sp₁ tail hb : List Byte} {v ro k : Nat} {d₁ d₂ d₃ : Byte} {reason : Option (List Byte)} {hs : List Hdr}
+    (hl : IsStatusLine cfg.multiResp pre v sp₁ d₁ d₂ d₃ tail ro reason)
+    (hb' : buf = statusLineBytes pre v sp₁ d₁ d₂ d₃ tail ++ hb)
+    (hblk : BlockSpec cfg.respH cap (statusLineBytes pre v sp₁ d₁ d₂ d₃ tail).length 0 hb k hs) :
+    (respCore be cfg cap buf v₀).hdrs = hs ∧
+    (respCore be cfg cap buf v₀).val =
+      ⟨some v, some (codeValue d₁ d₂ d₃), some (reportedReason (pre.length + 8 + sp₁.length + 3 + ro) reason)⟩ :=
+  respCore_ok_fields be hbe cfg cap buf v₀ hl hb' hblk
 
 /-- non-vacuity: `HTTP/1.1 200 OK\r\n` -/
 example : IsStatusLine false [] 1 [SP] 0x32 0x30 0x30 (SP :: [] ++ [0x4F, 0x4B] ++ [CR, LF]) 1 (some [0x4F, 0x4B]) :=
